@@ -6,6 +6,20 @@ HERE = os.path.dirname(os.path.dirname(os.path.abspath(__file__)))
 
 # id -> (category, technique, text, note)
 CLAIMED = {
+ "C06": ("other", "axis-map extraction of the shifted-slice blocks + affine normal forms of the interpolation factors + dispatch vocabulary (ast)",
+         "Narrow claim. Decided per axis block: the divergence pairs sign (+,-) with (lower, higher) cell and the face area of the same "
+         "axis; mass matrices are prod(voxel_size) on the diagonal; reconstruction writes component d from the faces of axis d with "
+         "factors pt[d] / 1-pt[d] (sum 1) on the [:-1] / [1:] cells in Fortran order; face averages gather both neighbours; tangential "
+         "reconstruction reads the orthogonal faces of both neighbours with a consistent 'no face' mask. "
+         "Not decided: adjointness, reproduction of constant fields, behaviour on extents 1 and 2 (identities over all shapes/fields).",
+         "Trusted: python ast parser; the C07.a facts about connectivity columns. Several obligations compare normalised expression text with the expected construction; a refactoring of those lines needs the rule to be re-confirmed."),
+ "C07": ("other", "axis-map extraction of the connectivity / reverse-connectivity shifts, literal corner-table extraction with exhaustive check, provenance of the numbering expressions (ast)",
+         "Decided: connectivity and reverse connectivity are built from mirrored [:-1]/[1:] shifts on the face's normal axis (exact inverse "
+         "by construction, -1 elsewhere), all orders Fortran; face numbering is contiguous per axis with counts from the shape; interior "
+         "faces exclude the outer layer of every tangential axis and exterior faces are the set difference (partition); every recorded "
+         "corner index denotes a reference-cell corner on that face (exhaustive over the 34 literal stores) and the quadrature module's "
+         "corner list agrees. Not decided: numpy slicing behaviour on thin / single-cell shapes (value dependent).",
+         "Trusted: python ast parser; sa/fold.py for the literal tables. The corner-table clause is exhaustive; the others are structural necessary conditions."),
  "C05": ("other", "dispatch/provenance check of the front end + constant-folded quadrature tables behind the cost functional (ast)",
          "Narrow claim. Decided: the unified front end returns exactly what the back end it constructs returns (documented = dispatched "
          "methods, arguments passed through unmodified), and the cost functional integrates the Euclidean flux norm with positive "
